@@ -143,6 +143,58 @@ def f2_literal_lowering(ctx: Ctx):
 
 
 # ----------------------------------------------------------------------
+# F3 no binary64 detour between a spelling and its value
+
+# calls that round to, or read back, a machine double (or hand the value to a library that does)
+_DOUBLE_DETOURS = ('float', 'float.fromhex', 'float.hex', 'struct.pack', 'struct.unpack', 'Float.from_float', 'RealFloat.from_float', 'np.float64', 'numpy.float64',
+                   'decimal.Decimal', 'Decimal')
+_DOUBLE_METHODS = ('hex', 'as_integer_ratio', 'fromhex')
+_DOUBLE_MODULES = ('math', 'cmath', 'gmp', 'gmpy2', 'np', 'numpy', 'struct')
+
+
+def f3_no_double_detour(ctx: Ctx):
+    """A literal that is given as text (a hexadecimal-float string, the text of `rational` / `digits` arguments, the
+    decimal text `Decnum` carries) is turned into its value by integer and Fraction arithmetic only.  On the functions
+    that carry the text from the call in the source to the Fraction -- the parser's bespoke literal forms, the literal
+    nodes' `as_rational` / `as_real`, the converters of utils/fractions -- no call rounds to a machine double or reads
+    one back: `float.fromhex(s).hex()` looks like a normalisation of the spelling and is a rounding to 53 digits."""
+    sites = [(PARSER, f'Parser.{m}') for m in ('_parse_hexfloat', '_parse_rational', '_parse_digits')]
+    for cls in ('Decnum', 'Hexnum', 'Integer', 'Rational', 'Digits'):
+        if not ctx.repo.has_cls(FPYAST, cls):
+            raise ShapeError(f'literal node class {cls} not found')
+        for m in ('__init__', 'as_rational', 'as_real'):
+            if ctx.repo.has_func(FPYAST, f'{cls}.{m}'):
+                sites.append((FPYAST, f'{cls}.{m}'))
+    for q, f in ctx.repo.functions(FRACTIONS):
+        if '.' not in q and q != 'is_dyadic':
+            sites.append((FRACTIONS, q))
+    n = 0
+    for rel, q in sites:
+        fn = ctx.fn(rel, q)
+        n += 1
+        bad = []
+        for k in calls_in(fn):
+            cn = call_name(k) or ''
+            head = cn.split('.')[0]
+            if cn in _DOUBLE_DETOURS or head in _DOUBLE_MODULES or (isinstance(k.func, ast.Attribute) and k.func.attr in _DOUBLE_METHODS):
+                bad.append(norm(k))
+        ctx.check(not bad, rel, fn, q, 'spelling -> value without a machine double in between', f'{bad}: the spelling is rounded to 53 significant bits (and to the double exponent range) before the program sees it')
+    # the text itself reaches the node: the Hexnum is built from the argument's own string
+    q = 'Parser._parse_hexfloat'
+    fn = ctx.fn(PARSER, q)
+    rets = [s for s in walk_no_nested(fn) if isinstance(s, ast.Return)]
+    good = len(rets) == 1 and isinstance(rets[0].value, ast.Call) and call_name(rets[0].value) == 'Hexnum' and len(rets[0].value.args) >= 2
+    if good:
+        text = rets[0].value.args[1]
+        # `arg.val`, possibly through case / whitespace methods of str
+        good = 'arg.val' in norm(text) and {x.id for x in ast.walk(text) if isinstance(x, ast.Name)} <= {'arg'} \
+            and all(isinstance(k.func, ast.Attribute) and k.func.attr in ('lower', 'strip', 'casefold') for k in ast.walk(text) if isinstance(k, ast.Call))
+    ctx.check(good, PARSER, rets[0] if rets else fn, q, 'the Hexnum node carries the string written in the source', f'got {[norm(r.value) for r in rets]}')
+    if n < 12:
+        raise ShapeError(f'only {n} functions on the literal path found')
+
+
+# ----------------------------------------------------------------------
 # S1 sibling converters over their regexes
 
 def _regex_alternatives(pattern: str):
@@ -301,6 +353,7 @@ ASSUMPTIONS = ['ast.get_source_segment returns the literal as written', 'Fractio
 
 RULES = [
     Rule('C06.F1', 'a float literal is built from its spelling, never from Python\'s double alone', f1_literal_from_spelling, 4, 'F,G'),
+    Rule('C06.F3', 'no machine double between the text of a literal and its value (hexfloat / rational / digits / decimal converters)', f3_no_double_detour, 12, 'F'),
     Rule('C06.F2', 'literals lower to an exact integer ratio or the negative-zero helper; sign folds only for -0 and -<int>', f2_literal_lowering, 14, 'F'),
     Rule('C06.S1', 'decimal and hexadecimal converters handle every alternative their patterns admit; shared exact formula', s1_sibling_converters, 16, 'S'),
     Rule('C06.T1', 'as_rational formulas and argument order of rational / digits / hexfloat', t1_value_formulas, 15, 'T'),
@@ -309,6 +362,11 @@ RULES = [
 from ..selftest import Mutant  # noqa: E402
 
 MUTANTS = [
+    Mutant('hexfloat-spelling-normalised-through-a-double', PARSER, "        return Hexnum(func, arg.val, loc)", "        return Hexnum(func, float.fromhex(arg.val).hex(), loc)", 'C06.F3',
+           'seeded change C06c: hexfloat(\'0x1.00000000000008p+0\') is 1 under the real context'),
+    Mutant('hexfloat-case-folded', PARSER, "        return Hexnum(func, arg.val, loc)", "        return Hexnum(func, arg.val.lower(), loc)", 'C06.F3', 'accepts more spellings, changes no value', expect='silent'),
+    Mutant('hex-converter-through-a-double', FRACTIONS, "    return _sci_to_fraction(sign, i, f, exp, 16, 2)", "    return Fraction(float.fromhex(m.group(0)))", 'C06.F3'),
+    Mutant('digits-through-pow', FRACTIONS, "    return Fraction(m) * Fraction(b) ** e", "    return Fraction(m * math.pow(b, e))", 'C06.F3'),
     Mutant('literal-from-spelling (repair twin)', PARSER,
            "            case float():\n                if e.value.is_integer():\n                    return Integer(int(e.value), loc)\n                else:\n                    return Decnum(str(e.value), loc)",
            "            case float():\n                text = ast.get_source_segment(''.join(self.lines), e)\n                exact = Fraction(text.replace('_', ''))\n"
